@@ -15,7 +15,7 @@ def hostile(r, thorough):
     for ln in [0xffffffff, 0x80000000, 0x7fffffff, 0x10000, 0xffff]:
         S += [('pd4', b'\x4e' + struct.pack('<I', ln)), ('pd4', b'\x4e' + struct.pack('<I', ln) + gen.rb(r, 9)), ('pd4', b'\x6a\x4e' + struct.pack('<I', ln) + gen.rb(r, 3)), ('pd4', b'\x76\xa9\x4e' + struct.pack('<I', ln))]
         S += [('pd2', b'\x4d' + struct.pack('<H', ln & 0xffff) + gen.rb(r, 5)), ('pd1', b'\x4c' + bytes([ln & 0xff]) + gen.rb(r, 5))]
-    S += [('p2pk_edge', bytes([33]) + gen.rb(r, 33)), ('p2pk_edge', bytes([65]) + gen.rb(r, 65) + b'\xac\x00'), ('utf8', b'\x6a\x04\xff\xfe\xfd\xfc'), ('utf8', b'\x6a\x03\xed\xa0\x80'), ('utf8', b'\x6a\x04\xf4\x90\x80\x80')]
+    S += [('p2pk_shape', b'\x21\x02' + b'\xff' * 32 + b'\xac'), ('p2pk_shape', b'\x41\x04' + b'\x00' * 64 + b'\xac'), ('p2pk_shape', b'\x21\x05' + gen.rb(r, 32) + b'\xac'), ('p2pk_shape', b'\x41\x06' + gen.rb(r, 64) + b'\xac'), ('p2pk_edge', bytes([33]) + gen.rb(r, 33)), ('p2pk_edge', bytes([65]) + gen.rb(r, 65) + b'\xac\x00'), ('utf8', b'\x6a\x04\xff\xfe\xfd\xfc'), ('utf8', b'\x6a\x03\xed\xa0\x80'), ('utf8', b'\x6a\x04\xf4\x90\x80\x80')]
     if thorough: S += [('big', gen.rb(r, 100000)), ('big', b'\x6a' + gen.rb(r, 100000))]
     return S
 
@@ -51,7 +51,12 @@ def explore(ck):
                         for x in payloads:
                             if field == 'scriptPubKey': txs.append(Tx([(b'\x31' * 32, 1, b'', 0)], [(7, x), (8, P2PKH(b'\x05' * 20))]))
                             elif field == 'scriptSig': txs.append(Tx([(b'\x32' * 32, 1, x, 0)], [(8, P2PKH(b'\x06' * 20))]))
-                            else: txs.append(Tx([(b'\x33' * 32, 1, b'', 0)], [(8, P2PKH(b'\x07' * 20))], witness=[[x, b'\x01']]))
+                            else:
+                                # stacks of growing, shrinking and equal item sizes, over one and two inputs (an item larger than all earlier ones but within twice their size included)
+                                k_ = len(txs) % 4
+                                st = [[x, b'\x01']] if k_ == 0 else [[b'\x01', b'\x02\x03', x]] if k_ == 1 else [[x[:len(x) // 2 + 1], x, x + b'\x00' * (len(x) // 3 + 1)]] if k_ == 2 else [[b'\x01' * 72, b'\x02', x], [b'\x03' * 72, b'\x04', x + b'\x05']]
+                                ins_ = [(b'\x33' * 32, 1, b'', 0)] + ([(b'\x34' * 32, 2, b'', 0)] if k_ == 3 else [])
+                                txs.append(Tx(ins_, [(8, P2PKH(b'\x07' * 20))], witness=st))
                     nb = Block(prev, txs, time=b.time, version=b.version if COINS[coin]['aux'] is None else 1); blocks.append(nb); prev = nb.hash
                 return blocks
             c = Case('h%d_%s' % (i, field), coin).simple_layout(build(hs)); c.meta.update(field=field, cbs=['csv', 'unspent', 'balances', 'opreturn', 'stats'] if not quick or field == 'scriptPubKey' else ['csv', 'stats'])
